@@ -595,11 +595,16 @@ def run_index(ctx, hs):
     p = ctx.params
     shapes = [s for s in all_shapes() if len(s) in p["nvars"] and (p["first"] == 0 or s[0] == p["first"])]
     pairs = 0
+    buf = []       # ONE list object handed over with the numbers of many shapes (a memo keyed by id() would answer for the first)
+    prev = None    # the previous shape of this shard: asked again after the current one (history step, hooks judge every call)
     for i in ctx.cases(len(shapes)):
         dims = shapes[i]
         total = int(np.prod(dims))
         as_list = (i % 2 == 0)
         nl = list(dims) if as_list else tuple(dims)
+        if i % 4 == 0:
+            buf[:] = dims
+            nl = buf
         for k in range(total):
             ok, multi = ctx.attempt(iu.index_multi_dimensional_from_index_serial, nl, k)
             if not ok:
@@ -611,6 +616,18 @@ def run_index(ctx, hs):
                 ctx.violation("index_util.serial_from_multi:" + ctx.exc_key(ser), {"dims": dims, "multi": want})
                 continue
             pairs += 1
+        # ---- history: the previous shape again (descending), then this shape again in another order
+        for sh in ([prev] if prev is not None else []) + [dims]:
+            tot = int(np.prod(sh))
+            for k in sorted({tot - 1, tot // 2, 0}, reverse=True):
+                ok, multi = ctx.attempt(iu.index_multi_dimensional_from_index_serial, tuple(sh), k)
+                if not ok:
+                    ctx.violation("index_util.multi_from_serial:" + ctx.exc_key(multi) + S_SECOND, {"dims": sh, "serial": k})
+                    continue
+                ok2, ser = ctx.attempt(iu.index_serial_from_index_multi_dimensional, list(sh), rm_multi(sh, k))
+                if not ok2:
+                    ctx.violation("index_util.serial_from_multi:" + ctx.exc_key(ser) + S_SECOND, {"dims": sh, "multi": rm_multi(sh, k)})
+        prev = dims
         if sum(1 for d in dims if d > 1) >= 2:
             ctx.nontrivial("index", dims)
         if i < 2 and p["first"] in (0, 3):
@@ -694,6 +711,179 @@ def ordered_subsets(n):
             yield list(c)
 
 
+HIST = 16   # sub-stream of the case RNG used by the history steps (the base cases stay bit-identical to the former workload)
+S_SECOND = ":second-call"
+S_TWIN = ":same-shape-twin"
+S_REUSED = ":re-used-object"
+S_REREAD = ":re-read-after-later-calls"
+S_RETURNED = ":on-returned-distribution"
+S_SETTER = ":after-setter"
+S_COPY = ":via-copy"
+S_GATE = ":via-gate"
+
+
+class FirstResults:
+    """distributions returned in the first pass of a case, with a snapshot (shape, ps) taken when they were returned
+    (each was judged by its hook at that moment); the first 24 and the last 24 are kept and read again at the end"""
+
+    def __init__(self):
+        self.items = []
+        self.n = 0
+
+    def remember(self, what, args, obj):
+        try:
+            snap = (ishape(obj.shape), np.array(obj.ps, dtype=float).ravel().copy())
+        except Exception:
+            return
+        it = {"what": what, "args": args, "obj": obj, "shape": snap[0], "ps": snap[1]}
+        if len(self.items) < 48:
+            self.items.append(it)
+        else:
+            self.items[24 + self.n % 24] = it
+        self.n += 1
+
+
+def judge_joint(ctx, P, Mg, C, dims, sub, av, rest, thr, nflat, cidx, cval, cls, sfx=""):
+    """joint = marginal x conditional through the public accessors only (P: joint, Mg: P.marginalize(sub), C: the conditional)"""
+    n = len(dims)
+    okm, m_q = ctx.attempt(Mg.__getitem__, tuple(int(v) for v in av))
+    if not okm:
+        ctx.violation("MultinomialDistribution.getitem:" + ctx.exc_key(m_q) + sfx, {"shape": dims, "idx": av})
+        return
+    worst = 0.0
+    for cell in itertools.product(*[range(dims[k]) for k in rest]):
+        full = [0] * n
+        for k, v in zip(sub, av):
+            full[k] = v
+        for k, v in zip(rest, cell):
+            full[k] = v
+        o1, j = ctx.attempt(P.__getitem__, tuple(full))
+        o2, c = ctx.attempt(C.__getitem__, tuple(cell))
+        if not (o1 and o2):
+            ctx.violation("MultinomialDistribution.getitem:" + ctx.exc_key(c if o1 else j) + sfx, {"shape": dims, "idx": full})
+            return
+        worst = max(worst, abs(j - m_q * c))
+    # children are thresholded at 1e-8: the mass zeroed in the marginal and in the conditional is at most
+    # (number of cells) * 1e-8 each, which bounds the cell-wise discrepancy (derived bound, not calibrated)
+    tp, tf = (1e-13, 1e-9) if not thr else (4 * nflat * 1e-8, 400 * nflat * 1e-8)
+    ctx.num("driver:joint=marginal*conditional(quara-marginal)" + sfx, worst, tp, tf,
+            key="MultinomialDistribution:joint-differs-from-marginalize-times-conditionalize" + sfx,
+            info={"shape": dims, "cond_indices": cidx, "cond_values": cval, "class": cls, "marginal": float(m_q), "history_step": sfx})
+
+
+def reread(ctx, P, dims, flat, is_zero, eps_arg, cls, sfx):
+    """every multi-index and every serial index of P against the reference tensor, and the reported attributes"""
+    K = "MultinomialDistribution"
+    for idx in itertools.product(*[range(d) for d in dims]):
+        k = rm_serial(dims, idx)
+        oka, a = ctx.attempt(P.__getitem__, k)           # serial first this time
+        okb, b = ctx.attempt(P.__getitem__, tuple(idx))
+        if not (oka and okb):
+            ctx.violation(K + ".getitem:" + ctx.exc_key(b if oka else a) + sfx, {"shape": dims, "idx": idx})
+            continue
+        ctx.num("driver:getitem-vs-reference-tensor" + sfx, max(abs(a - flat[k]), abs(a - b)) if not is_zero else max(abs(a), abs(b)), 1e-13, 1e-9,
+                key=K + ".getitem:value-differs-from-reference-tensor" + sfx, info={"shape": dims, "idx": idx, "class": cls, "history_step": sfx})
+    ok, att = ctx.attempt(lambda: (ishape(P.shape), float(P.eps_zero), bool(P.is_zero_dist)))
+    if not ok:
+        ctx.violation(K + ":attributes:" + ctx.exc_key(att) + sfx, {"shape": dims})
+        return
+    want = (tuple(dims), 1e-8 if eps_arg is None else float(eps_arg), bool(is_zero))
+    for nm, g, w in zip(("shape", "eps_zero", "is_zero_dist"), att, want):
+        ctx.truth("driver:attributes-as-constructed" + sfx, g == w, key=f"{K}:{nm}-changed-after-construction" + sfx,
+                  info={"shape": dims, "class": cls, "got": repr(g), "want": repr(w)})
+
+
+def dist_history(ctx, MD, P, dims, flat, is_zero, eps_arg, cls, hist):
+    """history / combination steps on the joint distribution P of one case, all judged by the hooks and by the driver
+    oracles of the first pass:
+      * a twin distribution (same shape, same class, same eps_zero, other numbers) is built and the SAME calls go alternately
+        to the twin and to P (a cache / scratch buffer keyed by shape, size, class or arguments hands one the other's data);
+      * P.marginalize / P.conditionalize are asked AGAIN (other order of the retained variables, other assignments) and
+        joint = marginal x conditional is judged again through the accessors;
+      * returned distributions are used as operands of further marginalize / conditionalize calls;
+      * at the end P (and the twin) are read again, cell by cell, against the reference tensor, and the distributions
+        returned in the first pass are read again against the snapshot taken when they were returned."""
+    rng = ctx.rng(HIST)
+    n = len(dims)
+    K = "MultinomialDistribution"
+    thr = (eps_arg is not None and eps_arg < 1e-8)
+    # ---- twin
+    p2, eps2 = make_tensor(rng, dims, cls)
+    kw = {} if eps2 is None else {"eps_zero": eps2}
+    ok2, P2 = ctx.attempt(MD, p2.copy(), tuple(dims), **kw)
+    flat2, zero2 = None, True
+    if not ok2:
+        ctx.violation(K + ".ctor:" + ctx.exc_key(P2) + S_TWIN, {"shape": dims, "class": cls, "p": p2})
+        P2 = None
+    else:
+        c2, zero2, _, _ = model_ctor(p2, 1e-8 if eps2 is None else eps2)
+        flat2 = c2[0]
+    objs = [(P2, flat2, zero2, S_TWIN), (P, flat, is_zero, S_SECOND)]
+    # ---- marginals again, alternately on the twin and on P
+    keeps = list(ordered_subsets(n))
+    pick = sorted(int(t) for t in rng.choice(len(keeps), size=min(4, len(keeps)), replace=False))
+    for t in reversed(pick):
+        for obj, fl, zr, sfx in objs:
+            if obj is None:
+                continue
+            okm, Mg = ctx.attempt(obj.marginalize, list(keeps[t]))
+            if not okm:
+                ctx.violation(K + ".marginalize:" + ctx.exc_key(Mg) + sfx, {"shape": dims, "keep": keeps[t], "class": cls})
+            elif sfx == S_SECOND:
+                hist.remember("marginalize", list(keeps[t]), Mg)
+    # ---- conditionals again (random assignments, permuted argument order), joint = marginal x conditional again
+    for _ in range(4 if n >= 2 else 0):
+        r = int(rng.integers(1, n))
+        sub = sorted(int(k) for k in rng.choice(n, size=r, replace=False))
+        av = [int(rng.integers(0, dims[k])) for k in sub]
+        pm = [int(t) for t in rng.permutation(r)]
+        cidx, cval = [sub[t] for t in pm], [av[t] for t in pm]
+        for obj, fl, zr, sfx in objs:
+            if obj is None or zr:
+                continue
+            S, rest = explicit_slice(fl, dims, sub, av)
+            m_ref = float(S.sum())
+            okc, C = ctx.attempt(obj.conditionalize, list(cidx), list(cval))
+            if m_ref <= 0.0:
+                ctx.skip("driver:conditioning-on-zero-marginal-event")
+                continue
+            if not okc:
+                ctx.violation(K + ".conditionalize:" + ctx.exc_key(C) + sfx,
+                              {"shape": dims, "cond_indices": cidx, "cond_values": cval, "marginal_of_event": m_ref, "class": cls})
+                continue
+            okm, Mg = ctx.attempt(obj.marginalize, list(sub))
+            if not okm:
+                ctx.violation(K + ".marginalize:" + ctx.exc_key(Mg) + sfx, {"shape": dims, "keep": sub, "class": cls})
+                continue
+            judge_joint(ctx, obj, Mg, C, dims, sub, av, rest, thr, len(fl), cidx, cval, cls, sfx)
+    # ---- returned distributions as operands (the hooks judge every call against the operand's own numbers)
+    cand = [it for it in hist.items if len(it["shape"]) >= 2 and float(it["ps"].sum()) > 0.5]
+    for t in (sorted(int(x) for x in rng.choice(len(cand), size=min(3, len(cand)), replace=False)) if cand else []):
+        it = cand[t]
+        ch, shp = it["obj"], it["shape"]
+        T = it["ps"].reshape(shp)
+        last = len(shp) - 1
+        okm, Mg = ctx.attempt(ch.marginalize, [last])
+        if not okm:
+            ctx.violation(K + ".marginalize:" + ctx.exc_key(Mg) + S_RETURNED, {"shape": shp, "keep": [last], "from": it["what"]})
+        v = int(np.argmax(T.sum(axis=tuple(range(1, len(shp))))))   # a value of variable 0 with non-zero marginal
+        okc, C = ctx.attempt(ch.conditionalize, [0], [v])
+        if not okc:
+            ctx.violation(K + ".conditionalize:" + ctx.exc_key(C) + S_RETURNED, {"shape": shp, "cond_indices": [0], "cond_values": [v], "from": it["what"]})
+    # ---- read everything again
+    reread(ctx, P, dims, flat, is_zero, eps_arg, cls, S_SECOND)
+    if P2 is not None:
+        reread(ctx, P2, dims, flat2, zero2, eps2, cls, S_TWIN)
+    for it in hist.items:
+        ok, cur = ctx.attempt(lambda: (ishape(it["obj"].shape), np.array(it["obj"].ps, dtype=float).ravel()))
+        if not ok:
+            ctx.violation(f"{K}.{it['what']}:result-changed-after-later-calls:" + ctx.exc_key(cur), {"shape": dims, "args": it["args"]})
+            continue
+        err = maxabs(cur[1], it["ps"]) if cur[0] == it["shape"] else float("inf")
+        ctx.num("driver:returned-distribution-unchanged", err, 1e-13, 1e-9, key=f"{K}.{it['what']}:result-changed-after-later-calls",
+                info={"shape": dims, "class": cls, "args": it["args"], "returned_shape": it["shape"], "ps_when_returned": it["ps"], "ps_now": cur[1]})
+
+
 def run_dist(ctx, hs):
     from quara.objects.multinomial_distribution import MultinomialDistribution as MD
 
@@ -745,15 +935,19 @@ def run_dist(ctx, hs):
                         key="MultinomialDistribution.getitem:value-differs-from-reference-tensor", info={"shape": dims, "idx": idx})
         # ---- marginals: every ordered non-empty subset of retained variables
         margs = {}
+        hist = FirstResults()
+        thr = (eps_arg is not None and eps_arg < 1e-8)
         for keep in ordered_subsets(n):
             okm, Mg = ctx.attempt(P.marginalize, list(keep))
             n_marg += 1
             if not okm:
                 ctx.violation("MultinomialDistribution.marginalize:" + ctx.exc_key(Mg), {"shape": dims, "keep": keep, "class": cls})
                 continue
+            hist.remember("marginalize", list(keep), Mg)
             if keep == sorted(keep):
                 margs[tuple(keep)] = Mg
         if is_zero:
+            dist_history(ctx, MD, P, dims, flat, is_zero, eps_arg, cls, hist)
             continue
         # ---- conditionals: every assignment of every non-empty proper subset
         for r in range(1, n):
@@ -779,38 +973,11 @@ def run_dist(ctx, hs):
                         ctx.violation("MultinomialDistribution.conditionalize:" + ctx.exc_key(C),
                                       {"shape": dims, "cond_indices": cidx, "cond_values": cval, "marginal_of_event": m_ref, "class": cls})
                         continue
+                    hist.remember("conditionalize", (cidx, cval), C)
                     if Mg is None:
                         continue
-                    # joint = marginal x conditional through the public accessors only
-                    okm, m_q = ctx.attempt(Mg.__getitem__, tuple(int(v) for v in av))
-                    if not okm:
-                        ctx.violation("MultinomialDistribution.getitem:" + ctx.exc_key(m_q), {"shape": dims, "idx": av})
-                        continue
-                    thr = (eps_arg is not None and eps_arg < 1e-8)
-                    worst = 0.0
-                    bad = False
-                    for cell in itertools.product(*[range(dims[k]) for k in rest]):
-                        full = [0] * n
-                        for k, v in zip(sub, av):
-                            full[k] = v
-                        for k, v in zip(rest, cell):
-                            full[k] = v
-                        o1, j = ctx.attempt(P.__getitem__, tuple(full))
-                        o2, c = ctx.attempt(C.__getitem__, tuple(cell))
-                        if not (o1 and o2):
-                            ctx.violation("MultinomialDistribution.getitem:" + ctx.exc_key(c if o1 else j), {"shape": dims, "idx": full})
-                            bad = True
-                            break
-                        worst = max(worst, abs(j - m_q * c))
-                    if bad:
-                        continue
-                    ncell = int(np.prod([dims[k] for k in rest]))
-                    # children are thresholded at 1e-8: the mass zeroed in the marginal and in the conditional is at most
-                    # (number of cells) * 1e-8 each, which bounds the cell-wise discrepancy (derived bound, not calibrated)
-                    tp, tf = (1e-13, 1e-9) if not thr else (4 * len(flat) * 1e-8, 400 * len(flat) * 1e-8)
-                    ctx.num("driver:joint=marginal*conditional(quara-marginal)", worst, tp, tf,
-                            key="MultinomialDistribution:joint-differs-from-marginalize-times-conditionalize",
-                            info={"shape": dims, "cond_indices": cidx, "cond_values": cval, "class": cls, "marginal": float(m_q)})
+                    judge_joint(ctx, P, Mg, C, dims, sub, av, rest, thr, len(flat), cidx, cval, cls)
+        dist_history(ctx, MD, P, dims, flat, is_zero, eps_arg, cls, hist)
     ctx.count("marginalize-calls", n_marg)
     ctx.count("conditionalize-calls", n_cond)
     ctx.extra["dist_shapes"] = [list(s) for s in sel] if ctx.only_case is None else []
@@ -911,6 +1078,30 @@ def run_misc(ctx, hs):
             okb, b = ctx.attempt(pd.__getitem__, rm_serial(dims, idx))
             if not (oka and okb):
                 ctx.violation("ProbDist.getitem:" + ctx.exc_key(b if oka else a), {"shape": dims, "idx": idx})
+        # ---- history: a second ProbDist of the same shape with other numbers, asked alternately with the first (descending)
+        rh = ctx.rng(HIST)
+        t2 = rh.random(int(np.prod(dims)))
+        pd2 = ProbDist(t2 / t2.sum(), tuple(dims))
+        for idx in reversed(list(itertools.product(*[range(d) for d in dims]))):
+            for obj, sfx in ((pd2, S_TWIN), (pd, S_SECOND)):
+                oka, a = ctx.attempt(obj.__getitem__, tuple(idx))
+                okb, b = ctx.attempt(obj.__getitem__, rm_serial(dims, idx))
+                if not (oka and okb):
+                    ctx.violation("ProbDist.getitem:" + ctx.exc_key(b if oka else a) + sfx, {"shape": dims, "idx": idx})
+        # ---- history: defaults after explicit option values (an option value must not outlive the call it was given to)
+        off = base.copy()
+        off[int(np.argmax(off))] += 1e-5
+        ctx.attempt(validate_prob_dist, off)                 # default eps 1e-8: must raise (the ladder ended with eps=1e-2)
+        ctx.attempt(validate_prob_dist, base)                # must not raise
+        ctx.attempt(validate_prob_dist, base * 3.0, validate_sum=False)   # only non-negativity is asked
+        ctx.attempt(validate_prob_dist, base * 3.0)          # default validate_sum=True again: must raise
+        if size >= 2:
+            p = base.copy()
+            j, k = int(np.argmin(p)), int(np.argmax(p))
+            p[k] += p[j] - 2e-9
+            p[j] = 2e-9
+            ctx.attempt(MD, p.copy(), None, 1e-12)           # keeps the 2e-9 entry
+            ctx.attempt(MD, p.copy())                        # default threshold again: zeroes it
         if len(set(d for d in dims if d > 1)) >= 2:
             ctx.nontrivial("probdist", dims, t)
     if ctx.only_case is None:
@@ -954,13 +1145,19 @@ def ref_histories(sig0, steps):
     return sig
 
 
-def check_ensemble(ctx, tag, ens, sig, B, info):
-    """ens.prob_dist[t] and ens.state(t) against the reference history operators sig[t]"""
+def check_ensemble(ctx, tag, ens, sig, B, info, sfx=""):
+    """ens.prob_dist[t] and ens.state(t) against the reference history operators sig[t].
+    sfx names the history step that led to this evaluation (appended to oracle names and violation keys)"""
     K = f"ensemble:{tag}"
+    if sfx:
+        info = dict(info, history_step=sfx)
     hshape = tuple(int(x) for x in sig.shape[:-2])
+    if not ctx.truth(K + ":result-type" + sfx, type(ens).__name__ == "StateEnsemble", key=K + ":result-is-not-a-StateEnsemble" + sfx,
+                     info=dict(info, got=type(ens).__name__)):
+        return False
     ok, rshape = ctx.attempt(lambda: ishape(ens.prob_dist.shape))
     if not ok:
-        ctx.violation(K + ":" + ctx.exc_key(rshape), info)
+        ctx.violation(K + ":" + ctx.exc_key(rshape) + sfx, info)
         return False
     info = dict(info, history_shape=hshape, reported_shape=rshape)
     tr = None
@@ -968,12 +1165,13 @@ def check_ensemble(ctx, tag, ens, sig, B, info):
         tr = lambda t: t  # noqa: E731
     elif len(hshape) == 2 and rshape == hshape[::-1] and hshape[0] != hshape[1]:
         tr = lambda t: t[::-1]  # noqa: E731  (time order reversed but consistently: allowed by the statement)
-    ctx.truth(K + ":shape", tr is not None and len(ens.states) == int(np.prod(hshape)), key=K + ":shape-is-not-the-outcome-counts-of-the-steps", info=info)
+    ctx.truth(K + ":shape" + sfx, tr is not None and len(ens.states) == int(np.prod(hshape)),
+              key=K + ":shape-is-not-the-outcome-counts-of-the-steps" + sfx, info=info)
     if tr is None or len(ens.states) != int(np.prod(hshape)):
         return False
     p_ref = np.real(np.trace(sig, axis1=-2, axis2=-1))
     if np.any((p_ref > 1e-13) & (p_ref < 1e-6)):
-        ctx.skip(K + ":probability-near-threshold")
+        ctx.skip(K + ":probability-near-threshold" + sfx)
         return True
     ep = es = 0.0
     wp = ws = None
@@ -988,7 +1186,7 @@ def check_ensemble(ctx, tag, ens, sig, B, info):
         o4, sk = ctx.attempt(ens.state, k)
         if not (o1 and o2 and o3 and o4):
             bad = [v for o, v in ((o1, pt), (o2, st), (o3, pk), (o4, sk)) if not o][0]
-            ctx.violation(K + ":accessor:" + ctx.exc_key(bad), dict(info, outcome=t))
+            ctx.violation(K + ":accessor:" + ctx.exc_key(bad) + sfx, dict(info, outcome=t))
             return False
         obs[t] = pt
         if p_ref[h] >= 1e-3:
@@ -997,14 +1195,14 @@ def check_ensemble(ctx, tag, ens, sig, B, info):
             n_states += 1
             if e2 >= es:
                 es, ws = e2, t
-    keyp = K + ":probability-of-history-wrong"
+    keyp = K + ":probability-of-history-wrong" + sfx
     ref_t = np.where(p_ref > 1e-13, p_ref, 0.0)
     ref_t = ref_t if rshape == hshape else np.transpose(ref_t)
     # the generated instruments are trace preserving only to rounding (tot-1 ~ 1e-13 for ill-conditioned rank-1 POVMs);
     # quara renormalises when it has zeroed an entry and keeps the numbers otherwise: either is right
     tot = float(ref_t.sum())
     if abs(tot - 1.0) > 1e-10:
-        ctx.skip(K + ":generated-instrument-not-trace-preserving")
+        ctx.skip(K + ":generated-instrument-not-trace-preserving" + sfx)
         return True
     D = np.abs(obs - (ref_t / tot if maxabs(obs, ref_t / tot) < maxabs(obs, ref_t) else ref_t))
     ep = float(D.max())
@@ -1012,12 +1210,126 @@ def check_ensemble(ctx, tag, ens, sig, B, info):
     if ep >= 1e-9 and len(rshape) >= 2:
         # same numbers, other layout?
         if maxabs(obs.ravel(), ref_t.ravel(order="F")) < 1e-9:
-            keyp = K + ":probabilities-in-column-major-layout"
-    ctx.num(K + ":probability-of-history", ep, 1e-12, 1e-9, key=keyp, info=dict(info, worst_outcome=wp, p_ref=p_ref, p_obs=obs))
+            keyp = K + ":probabilities-in-column-major-layout" + sfx
+    ctx.num(K + ":probability-of-history" + sfx, ep, 1e-12, 1e-9, key=keyp, info=dict(info, worst_outcome=wp, p_ref=p_ref, p_obs=obs))
     if n_states:
-        ctx.num(K + ":post-state-of-history", es, 1e-11, 1e-9, key=K + ":state(t)-is-not-the-post-state-of-the-history-prob_dist[t]-refers-to",
+        ctx.num(K + ":post-state-of-history" + sfx, es, 1e-11, 1e-9,
+                key=K + ":state(t)-is-not-the-post-state-of-the-history-prob_dist[t]-refers-to" + sfx,
                 info=dict(info, worst_outcome=ws, p_ref=p_ref))
     return True
+
+
+def ens_history(ctx, compose, c_sys, B, d, info, i, kept, state, rho, M1, shp1, sets1, M2, m2, sets2, e1, sig1, e2, sig2, third, dist):
+    """history / combination steps of one ensemble case; every ensemble is judged by check_ensemble against its own
+    reference histories (and every state(t) call by the hook), nothing is compared with an earlier answer of quara"""
+    rng = ctx.rng(HIST)
+    TS, TE = "MProcess*State", "MProcess*StateEnsemble"
+
+    def step(tag, sfx, fn, sig, counts=None):
+        ok, e = ctx.attempt(fn)
+        if not ok:
+            ctx.violation(f"ensemble:{tag}:" + ctx.exc_key(e) + sfx, info)
+            return None
+        good = check_ensemble(ctx, tag, e, sig, B, info if counts is None else dict(info, counts=counts), sfx)
+        return e if good else None
+
+    # ---- (c) the process kept from the PREVIOUS case of the shard measures this case's state and this case's first ensemble
+    if kept:
+        Mk, setsk, shpk = kept["M"], kept["sets"], kept["shp"]
+        step(TS, S_REUSED, lambda: compose(Mk, state), ref_histories(rho, [(shpk, setsk)]), [list(shpk)])
+        step(TE, S_REUSED, lambda: compose(Mk, e1), ref_histories(rho, [(shp1, sets1), (shpk, setsk)]), [list(shp1), list(shpk)])
+    # ---- (c) twins: another process of the same outcome shape on the same state (non-default options), and the case's own
+    #      process objects on ANOTHER state, alternately
+    n1 = int(np.prod(shp1))
+    sets1t = ref.rand_instrument(d, n1, rng, [int(rng.integers(1, 3)) for _ in range(n1)])
+    opt = {"eps_zero": 1e-12} if rng.random() < 0.5 else {}
+    ok, M1t = ctx.attempt(lambda: gen.make_mprocess(c_sys, sets1t, shape=shp1, **opt))
+    if not ok:
+        ctx.violation("ensemble:construction:" + ctx.exc_key(M1t) + S_TWIN, info)
+        M1t = None
+    rho_b = ref.rand_density(d, rng, int(rng.integers(1, d + 1)))
+    ok, state_b = ctx.attempt(lambda: gen.make_state(c_sys, rho_b))
+    if not ok:
+        ctx.violation("ensemble:construction:" + ctx.exc_key(state_b) + S_TWIN, info)
+        state_b = None
+    if M1t is not None:
+        step(TS, S_TWIN, lambda: compose(M1t, state), ref_histories(rho, [(shp1, sets1t)]))
+    if state_b is not None:
+        e1b = step(TS, S_REUSED, lambda: compose(M1, state_b), ref_histories(rho_b, [(shp1, sets1)]))
+        if e1b is not None:
+            # second process with the option shape=(2,2) where it has four outcomes (same Kraus sets, other object)
+            if m2 == 4 and rng.random() < 0.6:
+                ok, M2s = ctx.attempt(lambda: gen.make_mprocess(c_sys, sets2, shape=(2, 2)))
+                if ok:
+                    step(TE, S_TWIN, lambda: compose(M2s, e1b), ref_histories(rho_b, [(shp1, sets1), ((2, 2), sets2)]), [list(shp1), [2, 2]])
+                else:
+                    ctx.violation("ensemble:construction:" + ctx.exc_key(M2s) + S_TWIN, info)
+            step(TE, S_REUSED, lambda: compose(M2, e1b), ref_histories(rho_b, [(shp1, sets1), ((m2,), sets2)]))
+    if M1t is not None:
+        step(TE, S_TWIN, lambda: compose(M2, M1t, state), ref_histories(rho, [(shp1, sets1t), ((m2,), sets2)]))
+    # ---- (a) the same calls again on the same operand objects
+    step(TS, S_SECOND, lambda: compose(M1, state), sig1)
+    step(TE, S_SECOND, lambda: compose(M2, e1), sig2)
+    # ---- public setter: sampling mode on, one sampled composition (its random result is not judged), sampling mode off
+    if rng.random() < 0.6:
+        seed = int(rng.integers(0, 2**31 - 1))
+        oks, _ = ctx.attempt(M1.set_mode_sampling, True, seed)
+        if oks:
+            ctx.attempt(compose, M1, state_b if state_b is not None else state)
+            ctx.count("history:sampling-mode-compositions(not judged)")
+        okb, err = ctx.attempt(M1.set_mode_sampling, False)
+        if not okb:
+            ctx.violation("ensemble:MProcess.set_mode_sampling(False):" + ctx.exc_key(err), info)
+        else:
+            step(TS, S_SETTER, lambda: compose(M1, state), sig1)
+            step(TE, S_SETTER, lambda: compose(M1, e1), ref_histories(rho, [(shp1, sets1), (shp1, sets1)]), [list(shp1), list(shp1)])
+    # ---- (b) operands reached through copy(); used only when the copy reproduces the raw arrays of its source
+    #      (what copy() returns is the business of other properties)
+    ok, cp = ctx.attempt(lambda: (M1.copy(), state.copy(), M2.copy()))
+    if ok:
+        M1c, sc, M2c = cp
+        with_same = (ishape(M1c.shape) == ishape(M1.shape) and ishape(M2c.shape) == ishape(M2.shape)
+                     and maxabs(np.array(M1c.hss), np.array(M1.hss)) <= 1e-12 and maxabs(np.array(M2c.hss), np.array(M2.hss)) <= 1e-12
+                     and maxabs(sc.vec, state.vec) <= 1e-12 and M1c.eps_zero == M1.eps_zero and M2c.eps_zero == M2.eps_zero
+                     and not M1c.mode_sampling and not M2c.mode_sampling)
+        if with_same:
+            ec = step(TS, S_COPY, lambda: compose(M1c, sc), sig1)
+            if ec is not None:
+                step(TE, S_COPY, lambda: compose(M2c, ec), sig2)
+        else:
+            ctx.count("history:copy-does-not-reproduce-the-source(not judged here)")
+    else:
+        ctx.count("history:copy-raises(not judged here)")
+    # ---- (b) a unitary gate between the two measurements: the rotated ensemble (returned by a previous library call,
+    #      sharing the distribution object of e1) is the operand of the second measurement
+    u = ref.rand_unitary(d, rng)
+    ok, G = ctx.attempt(lambda: gen.make_gate(c_sys, kraus=[u]))
+    if ok:
+        ok, e1g = ctx.attempt(compose, G, e1)
+        if ok:
+            sig1g = np.einsum("ab,...bc,dc->...ad", u, sig1, u.conj())
+            step(TE, S_GATE, lambda: compose(M2, e1g), ref_histories(sig1g, [((m2,), sets2)]))
+        else:
+            ctx.count("history:Gate*StateEnsemble-raises(not judged here)")
+    # ---- (b) the joint distribution returned by Povm o StateEnsemble as operand of marginalize / conditionalize
+    #      (the hooks judge the values against the operand's own numbers)
+    ok, nv = ctx.attempt(lambda: len(dist.shape))
+    if ok and nv >= 2:
+        for keep in (list(range(nv - 1)), [nv - 1], [nv - 1, 0]):
+            okm, Mg = ctx.attempt(dist.marginalize, keep)
+            if not okm:
+                ctx.violation("MultinomialDistribution.marginalize:" + ctx.exc_key(Mg) + S_RETURNED, dict(info, keep=keep))
+        okp, ps = ctx.attempt(lambda: np.array(dist.ps, dtype=float).reshape(ishape(dist.shape)))
+        if okp and float(ps.sum()) > 0.5:
+            y = int(np.argmax(ps.sum(axis=tuple(range(nv - 1)))))
+            okc, C = ctx.attempt(dist.conditionalize, [nv - 1], [y])
+            if not okc:
+                ctx.violation("MultinomialDistribution.conditionalize:" + ctx.exc_key(C) + S_RETURNED, dict(info, cond_indices=[nv - 1], cond_values=[y]))
+    # ---- (a) the ensembles of the first pass read again after everything else
+    check_ensemble(ctx, TS, e1, sig1, B, info, S_REREAD)
+    check_ensemble(ctx, TE, e2, sig2, B, info, S_REREAD)
+    if third is not None:
+        check_ensemble(ctx, TE, third[0], third[1], B, info, S_REREAD)
 
 
 def run_ens(ctx, hs):
@@ -1031,6 +1343,7 @@ def run_ens(ctx, hs):
     B = gen.basis_of(c_sys)
     d = c_sys.dim
     KINDS = ["random", "eigen", "prepare", "shape2d", "direct", "random"]
+    kept = {}   # a measurement process (with its Kraus sets) kept alive from the previous case of the shard
     for i in ctx.cases(prm["n"]):
         rng = ctx.rng()
         kind = KINDS[i % len(KINDS)]
@@ -1085,7 +1398,22 @@ def run_ens(ctx, hs):
             if not ok:
                 ctx.violation("ensemble:MProcess*StateEnsemble:" + ctx.exc_key(e1), info)
                 continue
-            check_ensemble(ctx, "MProcess*StateEnsemble", e1, ref_histories(sig0, [(shp1, sets1)]), B, dict(info, counts=[a, list(shp1)]))
+            sig1d = ref_histories(sig0, [(shp1, sets1)])
+            check_ensemble(ctx, "MProcess*StateEnsemble", e1, sig1d, B, dict(info, counts=[a, list(shp1)]))
+            # ---- history: the directly built ensemble is measured by ANOTHER process, then by the first one again;
+            #      the first result is read again afterwards
+            ok, e1b = ctx.attempt(compose_qoperations, M2, ens0)
+            if not ok:
+                ctx.violation("ensemble:MProcess*StateEnsemble:" + ctx.exc_key(e1b) + S_REUSED, info)
+            else:
+                check_ensemble(ctx, "MProcess*StateEnsemble", e1b, ref_histories(sig0, [((m2,), sets2)]), B, dict(info, counts=[a, m2]), S_REUSED)
+            ok, e1c = ctx.attempt(compose_qoperations, M1, ens0)
+            if not ok:
+                ctx.violation("ensemble:MProcess*StateEnsemble:" + ctx.exc_key(e1c) + S_SECOND, info)
+            else:
+                check_ensemble(ctx, "MProcess*StateEnsemble", e1c, sig1d, B, dict(info, counts=[a, list(shp1)]), S_SECOND)
+            check_ensemble(ctx, "MProcess*StateEnsemble", e1, sig1d, B, dict(info, counts=[a, list(shp1)]), S_REREAD)
+            kept = {"M": M2, "sets": sets2, "shp": (m2,)}
             continue
 
         # ---- once
@@ -1107,6 +1435,7 @@ def run_ens(ctx, hs):
         sig2 = ref_histories(rho, [(shp1, sets1), ((m2,), sets2)])
         if not check_ensemble(ctx, "MProcess*StateEnsemble", e2, sig2, B, info):
             continue
+        third = None
         # ---- a third step (all three counts different) on small systems
         if d <= 3 and kind in ("random", "shape2d"):
             sets3 = ref.rand_instrument(d, m3, rng)
@@ -1115,7 +1444,8 @@ def run_ens(ctx, hs):
                 ctx.violation("ensemble:MProcess*StateEnsemble:" + ctx.exc_key(e3), info)
                 continue
             sig3 = ref_histories(rho, [(shp1, sets1), ((m2,), sets2), ((m3,), sets3)])
-            check_ensemble(ctx, "MProcess*StateEnsemble", e3, sig3, B, dict(info, counts=[list(shp1), m2, m3]))
+            if check_ensemble(ctx, "MProcess*StateEnsemble", e3, sig3, B, dict(info, counts=[list(shp1), m2, m3])):
+                third = (e3, sig3)
         # ---- a POVM on the two-step ensemble: joint distribution over (history, outcome)
         k = 5
         N = ref.rand_povm(d, k, rng)
@@ -1151,6 +1481,8 @@ def run_ens(ctx, hs):
                     worst = min(maxabs(Jo, Jr), maxabs(Jo, Jr / Jr.sum()))  # renormalised or not (see check_ensemble)
                     ctx.num("ensemble:Povm*StateEnsemble:joint-probability", worst, 1e-12, 1e-9,
                             key="ensemble:Povm*StateEnsemble:joint-probability-of-(history,outcome)-wrong", info=dict(info, J=J))
+        ens_history(ctx, compose_qoperations, c_sys, B, d, info, i, kept, state, rho, M1, shp1, sets1, M2, m2, sets2, e1, sig1, e2, sig2, third, dist)
+        kept = {"M": M2, "sets": sets2, "shp": (m2,)}
     if ctx.only_case is None:
         hs.require(["StateEnsemble.state", "MD.getitem", "MD.ctor", "index.serial_from_multi"])
 
